@@ -99,7 +99,8 @@ def style_set(tags):
     return StyleSet([clikit_style(t) for t in tags])
 
 
-# how a rendering is obtained.  Each entry: name -> (decorated?, takes_base_style?, function(markup, tags, base) -> str)
+# how a rendering is obtained (A. = AnsiFormatter, P. = PlainFormatter, O. = Output; names are kept short: TLC wraps
+# printed tuples at 80 columns and the engine reads FAIL tuples line by line).  Each entry: name -> (decorated?, takes_base_style?, function(markup, tags, base) -> str)
 def _hows():
     from clikit.api.io import Output
     from clikit.formatter import AnsiFormatter, PlainFormatter
@@ -133,30 +134,30 @@ def _hows():
     plain = lambda tags: PlainFormatter(style_set(tags))  # noqa: E731
     st = lambda base: clikit_style(base[0], tag=False) if base else None  # noqa: E731
     dflt = {
-        "default AnsiFormatter.format": (True, False, lambda s, tags, base: AnsiFormatter().format(s)),
-        "default forced IO.write": (True, False, lambda s, tags, base: io_write(lambda _t: AnsiFormatter(forced=True))(s, tags, base)),
-        "default PlainFormatter.format": (False, False, lambda s, tags, base: PlainFormatter().format(s)),
-        "default AnsiFormatter.remove_format": (False, False, lambda s, tags, base: AnsiFormatter().remove_format(s)),
-        "default BufferedIO.write": (False, False, lambda s, tags, base: io_write(lambda _t: None)(s, tags, base)),
+        "dflt A.format": (True, False, lambda s, tags, base: AnsiFormatter().format(s)),
+        "dflt IO.write/forced": (True, False, lambda s, tags, base: io_write(lambda _t: AnsiFormatter(forced=True))(s, tags, base)),
+        "dflt P.format": (False, False, lambda s, tags, base: PlainFormatter().format(s)),
+        "dflt A.rm_format": (False, False, lambda s, tags, base: AnsiFormatter().remove_format(s)),
+        "dflt IO.write": (False, False, lambda s, tags, base: io_write(lambda _t: None)(s, tags, base)),
     }
     DEFAULT_HOWS.update(dflt)
     return {
         # decorated
-        "AnsiFormatter.format": (True, True, lambda s, tags, base: ansi(tags).format(s, st(base)) if base else ansi(tags).format(s)),
-        "Output.format/ansi": (True, True, lambda s, tags, base: Output(BufferedOutputStream(), forced(tags)).format(s, st(base))),
+        "A.format": (True, True, lambda s, tags, base: ansi(tags).format(s, st(base)) if base else ansi(tags).format(s)),
+        "O.format/ansi": (True, True, lambda s, tags, base: Output(BufferedOutputStream(), forced(tags)).format(s, st(base))),
         "IO.format/ansi": (True, True, lambda s, tags, base: BufferedIO(formatter=forced(tags)).format(s, st(base))),
-        "Output.write/forced": (True, False, out_write(forced)),
-        "Output.write/ansi-stream": (True, False, out_write(ansi, True)),
+        "O.write/forced": (True, False, out_write(forced)),
+        "O.write/ansistream": (True, False, out_write(ansi, True)),
         "IO.write/forced": (True, False, io_write(forced)),
         "IO.error/forced": (True, False, io_error(forced)),
         # undecorated
-        "AnsiFormatter.remove_format": (False, False, lambda s, tags, base: ansi(tags).remove_format(s)),
-        "PlainFormatter.format": (False, True, lambda s, tags, base: plain(tags).format(s, st(base))),
-        "PlainFormatter.remove_format": (False, False, lambda s, tags, base: plain(tags).remove_format(s)),
-        "Output.remove_format/ansi": (False, False, lambda s, tags, base: Output(BufferedOutputStream(), forced(tags)).remove_format(s)),
-        "IO.remove_format/plain": (False, False, lambda s, tags, base: BufferedIO(formatter=plain(tags)).remove_format(s)),
-        "Output.write/plain": (False, False, out_write(plain)),
-        "Output.write/ansi-unsupported": (False, False, out_write(ansi)),
+        "A.rm_format": (False, False, lambda s, tags, base: ansi(tags).remove_format(s)),
+        "P.format": (False, True, lambda s, tags, base: plain(tags).format(s, st(base))),
+        "P.rm_format": (False, False, lambda s, tags, base: plain(tags).remove_format(s)),
+        "O.rm_format/ansi": (False, False, lambda s, tags, base: Output(BufferedOutputStream(), forced(tags)).remove_format(s)),
+        "IO.rm_format/plain": (False, False, lambda s, tags, base: BufferedIO(formatter=plain(tags)).remove_format(s)),
+        "O.write/plain": (False, False, out_write(plain)),
+        "O.write/noansi": (False, False, out_write(ansi)),
         "IO.write/plain": (False, False, io_write(plain)),
         "IO.error/plain": (False, False, io_error(plain)),
     }
@@ -231,7 +232,7 @@ def run_markup(ctx, quick):
     traces, cases = [], []
     # ---- (a) every balanced message
     r = ctx.model(MSPEC, "MC_Markup", "MC_Markup_a_%s.cfg" % ctx.tier, name="markup: balanced messages", workers=8)
-    recs = T.emitted(r)
+    recs = G.ordered(T.emitted(r))
     if len(recs) < 4000:
         raise T.MachineryError("MC_Markup (a) emitted only %d renderings" % len(recs))
     nm = nmis = 0
@@ -259,7 +260,7 @@ def run_markup(ctx, quick):
 
     # ---- (b) styles x three ways
     r = ctx.model(MSPEC, "MC_Markup", "MC_Markup_b_%s.cfg" % ctx.tier, name="markup: styles x ways", workers=8)
-    recs = T.emitted(r)
+    recs = G.ordered(T.emitted(r))
     if len(recs) < 500:
         raise T.MachineryError("MC_Markup (b) emitted only %d renderings" % len(recs))
     nb_mis = 0
@@ -315,7 +316,7 @@ def shared_formatter_trace(msgs):
     evs = []
     for k, msg in enumerate(msgs):
         col = k % 2 == 0
-        ev = {"msg": msg, "base": [], "col": col, "how": "shared AnsiFormatter." + ("format" if col else "remove_format"), "res": "ok", "toks": []}
+        ev = {"msg": msg, "base": [], "col": col, "how": "shared A." + ("format" if col else "rm_format"), "res": "ok", "toks": []}
         try:
             ev["toks"] = tokenise(f.format(markup(msg)) if col else f.remove_format(markup(msg)))
         except Exception as e:  # noqa
@@ -557,12 +558,12 @@ def run_lines(ctx, quick):
         return n, mis
 
     r = ctx.model(LSPEC, "MC_OutputLines", "MC_OutputLines_lines.cfg", name="line-writer table", workers=8)
-    tab = T.emitted(r)
+    tab = G.ordered(T.emitted(r))
     if len(tab) < 300:
         raise T.MachineryError("MC_OutputLines table emitted only %d rows" % len(tab))
     n1, m1 = replay(tab, False, 6 if quick else None)
     r = ctx.model(LSPEC, "MC_OutputLines", "MC_OutputLines_prog_%s.cfg" % ctx.tier, name="scope programs", workers=8)
-    progs = T.emitted(r)
+    progs = G.ordered(T.emitted(r))
     if len(progs) < 2000:
         raise T.MachineryError("MC_OutputLines programs: only %d emitted" % len(progs))
     n2, m2 = replay(progs, True, 1 if quick else 2)
